@@ -45,4 +45,77 @@ def SyncContext.typed (s : SyncContext) (op : TypedOp) (t : Transport) (deadline
   let (r, s', t', effs) := s.call op.request t deadline
   (op.project r, s', t', effs)
 
+/-! ### Whole sessions of the blocking client
+
+A session is any sequence of the operations the blocking context offers (there is no blocking
+`disconnect`).  `asyncOf` names the asynchronous operation each one runs underneath; the theorems
+of C17 show that the session as a whole is the asynchronous session seen through `withTimeout`. -/
+
+inductive SyncOp
+  | call (req : Request) (ext : Transport) (deadline : Budget)
+  | typed (op : TypedOp) (ext : Transport) (deadline : Budget)
+  | setSlave (id : UInt8)
+  | setTimeout (on : Bool)
+  deriving Repr
+
+inductive SyncOpResult
+  | call (r : CallResult) (effs : List Effect)
+  | typed (r : Typed TypedVal) (effs : List Effect)
+  | unit
+  deriving Repr
+
+def SyncOpResult.effects : SyncOpResult → List Effect
+  | .call _ e => e
+  | .typed _ e => e
+  | .unit => []
+
+def stepSync (s : SyncContext) (t : Transport) : SyncOp → SyncOpResult × SyncContext × Transport
+  | .call req ext d =>
+    let (r, s', t', effs) := s.call req (t.extend ext) d
+    (.call r effs, s', t')
+  | .typed op ext d =>
+    let (r, s', t', effs) := s.typed op (t.extend ext) d
+    (.typed r effs, s', t')
+  | .setSlave id => (.unit, s.setSlave id, t)
+  | .setTimeout on => (.unit, s.setTimeout on, t)
+
+def runSync : SyncContext → Transport → List SyncOp → List SyncOpResult × SyncContext × Transport
+  | s, t, [] => ([], s, t)
+  | s, t, op :: ops =>
+    let (r, s', t') := stepSync s t op
+    let (rs, s'', t'') := runSync s' t' ops
+    (r :: rs, s'', t'')
+
+/-- the asynchronous operation underneath a blocking one, given whether a timeout is configured;
+    `set_timeout` touches the wrapper only -/
+def SyncOp.asyncOf (timeout : Bool) : SyncOp → Option Op
+  | .call req ext d => some (.call req ext (if timeout then d else none))
+  | .typed op ext d => some (.call op.request ext (if timeout then d else none))
+  | .setSlave id => some (.setSlave id)
+  | .setTimeout _ => none
+
+/-- the asynchronous session underneath a blocking session -/
+def asyncSession : Bool → List SyncOp → List Op
+  | _, [] => []
+  | _, .setTimeout on :: ops => asyncSession on ops
+  | to, op :: ops => (op.asyncOf to).toList ++ asyncSession to ops
+
+/-- what the blocking caller sees of the asynchronous result of its operation -/
+def SyncOp.present : SyncOp → OpResult → SyncOpResult
+  | .call .., .call o effs => .call (withTimeout o) effs
+  | .typed op .., .call o effs => .typed (op.project (withTimeout o)) effs
+  | _, _ => .unit
+
+/-- the blocking results of a session, read off the asynchronous results operation by operation -/
+def presentAll : List SyncOp → List OpResult → List SyncOpResult
+  | [], _ => []
+  | .setTimeout _ :: ops, rs => .unit :: presentAll ops rs
+  | op :: ops, r :: rs => op.present r :: presentAll ops rs
+  | _ :: _, [] => []
+
+def timeoutAfter : Bool → List SyncOp → Bool
+  | to, [] => to
+  | _, .setTimeout on :: ops => timeoutAfter on ops
+  | to, _ :: ops => timeoutAfter to ops
+
 end Modbus
